@@ -259,6 +259,19 @@ def check_case(case):
     eng = case["engine"]
     name = os.path.join(d, case["name"])
     os.makedirs(os.path.dirname(name), exist_ok=True)
+    if core.pick([case["name"], case["sizes"], case["vdt"], case["op"],
+                  "earlier"], 2) == 0:
+        # earlier in the same process another dataset was saved with writer
+        # options of its own; they belong to that call only
+        pre = xr.Dataset({"v": (("a",), [0.5, 1.5]), "w": (("a",), [1, 2])})
+        pname = os.path.join(d, "earlier-preview")
+        if eng == "h5netcdf":
+            xyz.save_ds(pre, pname, engine=eng,
+                        encoding={"v": {"dtype": "float32"},
+                                  "w": {"dtype": "int8"}})
+        else:
+            xyz.save_ds(pre, pname, engine=eng, compress=3)
+        os.remove(pname + {"h5netcdf": ".h5", "joblib": ".dmp"}[eng])
     if case["op"] == "merge-widen":
         return check_widen(case)
     ds = make_ds(case)
